@@ -444,7 +444,12 @@ class PPO(RLAlgorithm):
                     batch_values,
                 ) = get_experiences_samples(minibatch_idxs, *experiences)
 
-                batch_actions = batch_actions.squeeze()
+                # NOTE: squeeze() would also remove the action dimension of size-1 action spaces
+                batch_actions = (
+                    batch_actions.reshape(-1)
+                    if isinstance(self.action_space, spaces.Discrete)
+                    else batch_actions.reshape(-1, *self.action_space.shape)
+                )
                 batch_returns = batch_returns.squeeze()
                 batch_log_probs = batch_log_probs.squeeze()
                 batch_advantages = batch_advantages.squeeze()
